@@ -366,6 +366,7 @@ func (fr *frame) run() {
 			}
 			start = len(tmp)
 		}
+		jumped := false
 		for i := start; i < len(instrs); i++ {
 			m.steps++
 			if stepProf != nil {
@@ -381,9 +382,10 @@ func (fr *frame) run() {
 				return
 			case kJump:
 				i = len(instrs)
+				jumped = true
 			}
 		}
-		if fr.block == b {
+		if !jumped {
 			panic("block fell through: " + fr.fn.String())
 		}
 	}
